@@ -161,6 +161,31 @@ def main():
                          "what": "files whose transform failed are grouped, or the run did not end with a report", "rc": rc, "groups": names, "stderr": err[-200:]})
         elif "bad1.dat" not in err or "bad2.dat" not in err:
             devs.append({"options": ["--transform", "c15filter"], "child": mode, "what": "no warning for a file whose transform failed"})
+    # an ignore file that cannot be loaded affects nothing but itself: the rules inherited from the parent directories keep applying
+    # below it (the nested file is unreadable as text: invalid UTF-8; or a directory stands where the file is expected)
+    for kind in ("invalid-utf8", "directory"):
+        for nm in (".gitignore", ".fdignore"):
+            ig, igref = os.path.join(d, "ig_" + kind + nm), os.path.join(d, "igref_" + kind + nm)
+            for top, with_bad in ((ig, True), (igref, False)):
+                os.makedirs(os.path.join(top, "sub", "deeper"))
+                with open(os.path.join(top, nm), "w") as f:
+                    f.write("*.bak\n")
+                for rel in ("sub/x.bak", "sub/y.bak", "sub/deeper/z.bak"):
+                    open(os.path.join(top, rel), "wb").write(b"ignored duplicate " * 20)
+                for rel in ("sub/keep1.dat", "sub/deeper/keep2.dat"):
+                    open(os.path.join(top, rel), "wb").write(b"kept duplicate " * 30)
+                if with_bad:
+                    bad = os.path.join(top, "sub", nm)
+                    if kind == "invalid-utf8":
+                        open(bad, "wb").write(b"\xff\xfe\xfa broken\n")
+                    else:
+                        os.makedirs(bad)
+            rc, got, err = groups(binary, [ig], ig, [], base_env)
+            rc2, want, _ = groups(binary, [igref], igref, [], base_env)
+            runs += 2
+            if rc != 0 or got != want:
+                devs.append({"options": [], "what": "a nested %s that cannot be loaded (%s) changed which other files are scanned" % (nm, kind),
+                             "unexpected": [g for g in (got or []) if g not in (want or [])][:3], "missing": [g for g in (want or []) if g not in (got or [])][:3]})
     print(json.dumps({"runs": runs, "n": len(devs), "deviations": devs[:8]}))
     shutil.rmtree(d, ignore_errors=True)
 
